@@ -38,6 +38,10 @@ class Unknown(Exception):
     pass
 
 
+_NORET = object()
+_BREAK = object()
+
+
 class Folder:
     """constant folder for string predicates; env: decl id -> python value, plus 'style' for ...scalar.style and
     'subject' matched by text"""
@@ -119,18 +123,74 @@ class Folder:
                 raise Unknown("strlen of a non-constant")
             g = self.P.resolve_call(e, self.f)
             if g is not None and g.body is not None:
-                st = [s for s in g.body.kids if s is not None]
-                if len(st) == 1 and st[0].k == "ReturnStmt" and st[0].kids:
-                    env = {}
-                    for p, x in zip(g.params, a):
-                        env[p["decl"]] = self.ev(x)
-                    if "style" in self.env:
-                        env["style"] = self.env["style"]
-                    return Folder(self.P, g, env).ev(st[0].kids[0])
+                env = {}
+                for p, x in zip(g.params, a):
+                    env[p["decl"]] = self.ev(x)
+                if "style" in self.env:
+                    env["style"] = self.env["style"]
+                r = Folder(self.P, g, env).run_body(g.body)
+                if r is not _NORET:
+                    return r
             raise Unknown("call `%s`" % e.text()[:40])
         if k == "ConditionalOperator":
             return self.ev(e.kids[1]) if self.truth(self.ev(e.kids[0])) else self.ev(e.kids[2])
         raise Unknown("%s `%s`" % (k, e.text()[:40]))
+
+    def run_body(self, n):
+        """a predicate's body: compound / return / if / switch (with fall-through and break) / initialised scalar locals;
+        anything else is Unknown.  Returns the returned value, _BREAK, or _NORET when control falls off the end"""
+        if n is None:
+            return _NORET
+        k = n.k
+        if k == "CompoundStmt":
+            for c in n.kids:
+                r = self.run_body(c)
+                if r is not _NORET:
+                    return r
+            return _NORET
+        if k == "ReturnStmt":
+            return self.ev(n.kids[0]) if n.kids and n.kids[0] is not None else 0
+        if k == "IfStmt":
+            kids = [x for x in n.kids if x is not None]
+            if self.truth(self.ev(kids[0])):
+                return self.run_body(kids[1])
+            return self.run_body(kids[2]) if len(kids) > 2 else _NORET
+        if k == "BreakStmt":
+            return _BREAK
+        if k == "DeclStmt":
+            for v in n.kids:
+                if v is not None and v.k == "VarDecl" and v.kids and v.kids[0] is not None:
+                    self.env[v.get("decl")] = self.ev(v.kids[0])
+            return _NORET
+        if k == "SwitchStmt":
+            sel = self.ev(n.kids[0])
+            body = n.kids[-1]
+            items = [c for c in body.kids if c is not None] if body is not None and body.k == "CompoundStmt" else []
+            start = dflt = None
+            flat = []
+            for it in items:
+                t = it
+                while t is not None and t.k in ("CaseStmt", "DefaultStmt"):
+                    if t.k == "CaseStmt" and t.get("val") == sel and start is None:
+                        start = len(flat)
+                    if t.k == "DefaultStmt":
+                        dflt = len(flat)
+                    t = t.kids[-1] if t.kids else None
+                flat.append(t)
+            if start is None:
+                start = dflt
+            if start is None:
+                return _NORET
+            for t in flat[start:]:
+                r = self.run_body(t)
+                if r is _BREAK:
+                    return _NORET
+                if r is not _NORET:
+                    return r
+            return _NORET
+        if k == "NullStmt":
+            return _NORET
+        raise Unknown("statement %s in a predicate" % k)
 
     @staticmethod
     def truth(v):
@@ -150,6 +210,8 @@ def _candidates(P, f, e, depth=0):
             out.add(n.val)
         elif n.k == "CharacterLiteral" and n.val:
             out.add(chr(n.val))
+        elif n.k == "CaseStmt" and isinstance(n.get("val"), int) and 0 < n.get("val") < 256:
+            out.add(chr(n.get("val")))
         elif n.k == "CallExpr" and depth < 3:
             g = P.resolve_call(n, f)
             if g is not None and g.body is not None:
